@@ -54,7 +54,7 @@ type TransferScenario struct {
 	Streams     []TStream `json:"streams"`
 	Dgrams      []TDgram  `json:"dgrams,omitempty"`
 	HorizonMS   int64     `json:"horizon_ms"`
-	LateRebind  bool      `json:"late_rebind,omitempty"`  // at the end: the client's address changes, then a burst of three ack-eliciting packets on a quiet connection
+	LateRebind  bool      `json:"late_rebind,omitempty"` // at the end: the client's address changes, then a burst of three ack-eliciting packets on a quiet connection
 	Migrate     *TMigrate `json:"migrate,omitempty"`
 	ForeignPeer bool      `json:"foreign_peer,omitempty"` // at the end: a packet framed unlike the in-tree sender's (ACK frame last) is played to the client
 }
